@@ -6,6 +6,7 @@ package main
 // specification predicted for that step.  No expected value is computed here.
 
 import (
+	"bufio"
 	"bytes"
 	"encoding/json"
 	"fmt"
@@ -27,8 +28,19 @@ func codeBytes(c string) []byte {
 }
 func keyBytes(k string) []byte   { return []byte("storage-key-" + k) }
 func valBytes(v string) []byte   { return []byte("storage-value-" + v) }
-func ownerBytes(o string) []byte { return theHasher.Compute("verif-owner-" + o) }
+func ownerBytes(o string) []byte { return cached("verif-owner-" + o) }
 func metaBytes(m string) []byte  { return []byte("M" + m) }
+
+var hashCache = map[string][]byte{}
+
+func cached(s string) []byte {
+	if b, ok := hashCache[s]; ok {
+		return b
+	}
+	b := theHasher.Compute(s)
+	hashCache[s] = b
+	return b
+}
 
 type universe struct {
 	addrs, codes, keys []string
@@ -56,7 +68,7 @@ func asMap(v interface{}) map[string]interface{} {
 	return m
 }
 
-func newUniverse(first vtrace.Step) *universe {
+func newUniverse(first Step) *universe {
 	u := &universe{codeOfHash: map[string]string{}, ownerOf: map[string]string{}, metaOf: map[string]string{}, valOf: map[string]string{}}
 	acc := asMap(first.St["acc"])
 	u.addrs = sortedKeys(first.St["acc"])
@@ -65,7 +77,7 @@ func newUniverse(first vtrace.Step) *universe {
 		u.keys = sortedKeys(asMap(acc[u.addrs[0]])["sto"])
 	}
 	for _, c := range u.codes {
-		u.codeOfHash[string(theHasher.Compute(string(codeBytes(c))))] = c
+		u.codeOfHash[string(cached(string(codeBytes(c))))] = c
 	}
 	return u
 }
@@ -137,7 +149,7 @@ func project(e *env, u *universe) (M, error) {
 	}
 	codes := M{}
 	for _, c := range u.codes {
-		ex, refs, code, err := e.codeEntry(theHasher.Compute(string(codeBytes(c))))
+		ex, refs, code, err := e.codeEntry(cached(string(codeBytes(c))))
 		if err != nil {
 			return nil, fmt.Errorf("code leaf %s: %v", c, err)
 		}
@@ -250,9 +262,10 @@ type accReplayer struct {
 	reverts   int
 	c07evals  int
 	jlDiffers int
+	samples   int
 }
 
-func (r *accReplayer) violation(prop, sig, what string, b []vtrace.Step, si int, extra M) {
+func (r *accReplayer) violation(prop, sig, what string, b []Step, si int, extra M) {
 	r.nviol[sig]++
 	if r.nviol[sig] > 1 || len(r.nviol) > 6 {
 		return
@@ -264,7 +277,7 @@ func (r *accReplayer) violation(prop, sig, what string, b []vtrace.Step, si int,
 	vtrace.Violation(prop, sig, what, det)
 }
 
-func (r *accReplayer) drift(what string, b []vtrace.Step, si int) {
+func (r *accReplayer) drift(what string, b []Step, si int) {
 	r.drifts++
 	if r.drifts <= 3 {
 		vtrace.Drift("", what, M{"behaviour": b[:si+1], "step": si})
@@ -272,7 +285,7 @@ func (r *accReplayer) drift(what string, b []vtrace.Step, si int) {
 }
 
 // applyStep performs the real calls of one step; returns the error of the call under test
-func applyStep(e *env, u *universe, st vtrace.Step, snapReal map[int]int) error {
+func applyStep(e *env, u *universe, st Step, snapReal map[int]int) error {
 	switch st.A {
 	case "Save":
 		addr := addrBytes(vtrace.Str(st.In["a"]))
@@ -343,7 +356,7 @@ func applyStep(e *env, u *universe, st vtrace.Step, snapReal map[int]int) error 
 }
 
 // kinds of the calls that a Revert at step si undoes (the calls after the snapshot was taken)
-func undone(b []vtrace.Step, si int) string {
+func undone(b []Step, si int) string {
 	n := vtrace.Int(b[si].In["n"])
 	from := 0
 	for j := si - 1; j >= 0; j-- {
@@ -372,7 +385,7 @@ func undone(b []vtrace.Step, si int) string {
 
 // run one behaviour. observeAll: project and compare after every step; else only JournalLen in between and a
 // full comparison at the last step (so the harness' own reads cannot hide a defect by loading data tries).
-func (r *accReplayer) run(b []vtrace.Step, bi int, observeAll bool, pruning bool) {
+func (r *accReplayer) run(b []Step, bi int, observeAll bool, pruning bool) {
 	u := newUniverse(b[0])
 	var addrs [][]byte
 	for _, a := range u.addrs {
@@ -385,8 +398,15 @@ func (r *accReplayer) run(b []vtrace.Step, bi int, observeAll bool, pruning bool
 	if !observeAll {
 		mode = "observe-last"
 	}
-	for si := 1; si < len(b); si++ {
+	lastIdx := len(b) - 1
+	for lastIdx > 0 && b[lastIdx].A == "End" {
+		lastIdx--
+	}
+	for si := 1; si <= lastIdx; si++ {
 		st := b[si]
+		if st.A == "End" {
+			continue
+		}
 		u.learn(st.In)
 		err := applyStep(e, u, st, snapReal)
 		r.steps++
@@ -409,8 +429,7 @@ func (r *accReplayer) run(b []vtrace.Step, bi int, observeAll bool, pruning bool
 		if st.A == "Revert" && !wantErr {
 			r.reverts++
 		}
-		last := si == len(b)-1
-		if !observeAll && !last {
+		if !observeAll && si != lastIdx {
 			continue
 		}
 		real, perr := project(e, u)
@@ -431,14 +450,18 @@ func (r *accReplayer) run(b []vtrace.Step, bi int, observeAll bool, pruning bool
 					tag, bad, canon(real), bi, si, mode), b, si, M{"real": real})
 			return
 		}
-		d := diff(u, real, st.St)
+		want := st.St // what the property demands: the specification's state, unless the record carries `exp`
+		if x, ok := st.Exp["st"].(map[string]interface{}); ok {
+			want = x
+		}
+		d := diff(u, real, want)
 		root, rerr := e.adb.RootHash()
 		if rerr != nil {
 			r.drift(fmt.Sprintf("RootHash: %v", rerr), b, si)
 			return
 		}
 		if len(d) == 0 {
-			key := canon(st.St)
+			key := canon(want)
 			if old, ok := r.roots[key]; ok && old != string(root) {
 				d = append(d, "root-hash")
 			} else {
@@ -449,12 +472,20 @@ func (r *accReplayer) run(b []vtrace.Step, bi int, observeAll bool, pruning bool
 			if st.A == "Revert" && !wantErr {
 				r.violation("C06", "C06/revert/"+undone(b, si)+"/"+strings.Join(d, "+")+"-not-restored",
 					fmt.Sprintf("after RevertToSnapshot(%d) the state differs (%v) from the state when JournalLen returned that length: real %s root %x, expected %s (behaviour %d step %d, %s)",
-						snapReal[vtrace.Int(st.In["n"])], d, canon(real), root, canon(st.St), bi, si, mode), b, si, M{"real": real})
+						snapReal[vtrace.Int(st.In["n"])], d, canon(real), root, canon(want), bi, si, mode), b, si, M{"real": real})
 			} else {
 				r.drift(fmt.Sprintf("after %s the real state differs (%v) from the specification: real %s, specification %s (behaviour %d step %d, %s)",
-					tag, d, canon(real), canon(st.St), bi, si, mode), b, si)
+					tag, d, canon(real), canon(want), bi, si, mode), b, si)
 			}
 			return
+		}
+		if _, dev := st.Exp["st"]; dev {
+			// behaviour generated with KnownDefects: the property held although the deviating model predicted otherwise
+			if dd := diff(u, real, st.St); len(dd) > 0 {
+				r.drift(fmt.Sprintf("after %s the real state satisfies the property; the deviation modelled under KnownDefects does not occur (behaviour %d step %d, %s)",
+					tag, bi, si, mode), b, si)
+				return
+			}
 		}
 		if jl != vtrace.Int(st.Out["jl"]) {
 			r.jlDiffers++ // informational: the journal length is not part of C06/C07, snapshots are mapped by position
@@ -468,39 +499,73 @@ func replayAccounts(path string) {
 		vtrace.Broken(err.Error())
 		return
 	}
-	f.Close()
-	bs, err := vtrace.ReadBehaviours(path)
-	if err != nil {
-		vtrace.Broken(err.Error())
-		return
-	}
+	defer f.Close()
+	rd := bufio.NewReaderSize(f, 1<<20)
 	r := &accReplayer{roots: map[string]string{}, nviol: map[string]int{}, distinct: vtrace.NewDistinct()}
-	runs := 0
-	for bi, b := range bs {
-		if len(b) < 2 {
-			continue
+	runs, bi := 0, -1
+	prune := os.Getenv("VH_PRUNING") != "off"
+	for {
+		line, rerr := rd.ReadBytes('\n')
+		if len(line) > 1 {
+			var b []Step
+			if e := json.Unmarshal(line, &b); e != nil {
+				vtrace.Broken(fmt.Sprintf("behaviour line %d: %v", bi+2, e))
+				return
+			}
+			bi++
+			if len(b) >= 2 {
+				pruning := prune && bi%4 == 3
+				r.run(b, bi, true, pruning)
+				r.run(b, bi, false, pruning)
+				runs += 2
+				last := b[len(b)-1]
+				if nontrivialAccounts(b, os.Getenv("VERIF_PROP")) {
+					var calls []interface{}
+					for _, s := range b {
+						calls = append(calls, s.A, s.In)
+					}
+					r.distinct.Add(canon(calls))
+				}
+				if bi < 2 || (r.samples < 4 && last.A == "Revert" && len(b) > 5) {
+					r.samples++
+					vtrace.Sample(os.Getenv("VERIF_PROP"), b)
+				}
+			}
 		}
-		pruning := bi%4 == 3
-		r.run(b, bi, true, pruning)
-		r.run(b, bi, false, pruning)
-		runs += 2
-		last := b[len(b)-1]
-		r.distinct.Add(canon(b[len(b)-2].St) + last.A + canon(last.In))
-		if bi < 2 || (bi < 2000 && last.A == "Revert" && len(b) > 5 && bi%400 == 0) {
-			vtrace.Sample(os.Getenv("VERIF_PROP"), b)
+		if rerr != nil {
+			break
 		}
 	}
 	total := 0
 	for _, n := range r.nviol {
 		total += n
 	}
-	vtrace.Stat("behaviours", len(bs))
+	vtrace.Stat("behaviours", bi+1)
 	vtrace.Stat("runs", runs)
 	vtrace.Stat("steps", r.steps)
 	vtrace.Stat("reverts", r.reverts)
 	vtrace.Stat("c07_evaluations", r.c07evals)
-	vtrace.Stat("distinct_transitions", r.distinct.Len())
+	vtrace.Stat("distinct_nontrivial", r.distinct.Len())
 	vtrace.Stat("violations", total)
 	vtrace.Stat("drifted", r.drifts)
 	vtrace.Stat("journal_len_differs", r.jlDiffers)
+}
+
+// a call history is non-trivial for C06 if some Revert undoes at least one call, for C07 if code is set/changed/
+// cleared or an account is removed
+func nontrivialAccounts(b []Step, prop string) bool {
+	for i, s := range b {
+		if prop == "C07" {
+			if s.A == "Remove" || (s.A == "Save" && vtrace.Str(s.In["code"]) != "keep") {
+				return true
+			}
+			continue
+		}
+		if s.A == "Revert" && i > 0 {
+			if e, _ := s.Out["err"].(bool); !e && vtrace.Int(s.Out["jl"]) < vtrace.Int(b[i-1].Out["jl"]) {
+				return true
+			}
+		}
+	}
+	return false
 }
